@@ -98,8 +98,8 @@ def jobs(tier):
             add("PRM", "visible-pair", map=MAPS[4], budget=rng.choice([300, 600]), stall=["PRM.startGoalPairValid"])
         add("PRM", "plain", budget=rng.choice([600, 1500]), stall=["PRM.startGoalPairValid"])
         # the expansion step starts after 0.4 s of growing (the planner's own clock): every milestone insertion is held
-        # back (60 ms), a wall keeps the query unsolved, the solution thread's polling (1 kHz) needs the budget
-        add("PRM", "expand", budget=4000, map=(3, 3, [1, 4, 7], 0, 2), stall=["PRM.addMilestone"], perturb=1)
+        # back (60 ms, inside graphMutex_), a wall keeps the query unsolved
+        add("PRM", "expand", budget=80, map=(3, 3, [1, 4, 7], 0, 2), stall=["PRM.addMilestone"], perturb=1)
         add("PRM", "goalstates", query="goalstates", map=MAPS[0], budget=800, stall=["PRM.startGoalPairValid"])
         add("PRMstar", "visible-reset", map=MAPS[4], budget=300, stall=["PRM.bestCostReset"])
         add("PRMstar", "visible-pair", map=MAPS[4], budget=300, stall=["PRM.startGoalPairValid"])
